@@ -13,9 +13,9 @@ CONSTANTS NG,        \* number of goals
           Sizes,     \* test-case lengths
           ResKinds,  \* subset of {"ok","exc","to","none"}
           Copies,    \* distinct objects per shape
-          FitsCov,   \* fitness classes used with the coverage archive, e.g. {1,4}
-          FitsMio,   \* fitness classes used with the MIO archive, e.g. {1,2,4}
-          FitsPop,   \* fitness classes used with a bare MIOPopulation, e.g. {0,1,2,4}
+          FitsCov,   \* fitness classes used with the coverage archive, e.g. {1, HOne+1}
+          FitsMio,   \* fitness classes used with the MIO archive, e.g. {1, 2, HOne+1}
+          FitsPop,   \* fitness classes used with a bare MIOPopulation, e.g. {0, 1, 2, HOne+1}
           MaxLenCov, \* longest solution list of one CoverageArchive.update
           MaxLenMio, \* longest solution list of one MIOArchive.update
           Cap0,      \* initial population size of MIO
@@ -28,13 +28,19 @@ vars == <<mode, v, last, steps>>
 Goal == 1..NG
 RIdx(r) == CASE r = "ok" -> 0 [] r = "exc" -> 1 [] r = "to" -> 2 [] OTHER -> 3
 RECURSIVE FitCode(_, _)
-FitCode(fit, g) == IF g > NG THEN 0 ELSE fit[g] + 5 * FitCode(fit, g + 1)
+FitCode(fit, g) == IF g > NG THEN 0
+                   ELSE (IF fit[g] >= HOne THEN fit[g] - HOne + 3 ELSE fit[g]) + 5 * FitCode(fit, g + 1)
 MkSol(fit, sz, r, c) ==
   [id |-> c + Copies * (RIdx(r) + 4 * (sz + 8 * FitCode(fit, 1))),
    size |-> sz, res |-> r, epos |-> IF r = "exc" THEN Max2(0, sz - 2) ELSE 0, fit |-> fit]
 PoolOf(F, R) == {MkSol(fit, sz, r, c) : fit \in [Goal -> F], sz \in Sizes, r \in R, c \in 1..Copies}
 PoolCov == PoolOf(FitsCov, ResKinds)
-PoolMio == PoolOf(FitsMio, ResKinds \ {"none"})  \* MIOArchive.update asserts a result exists
+\* class HOne ("tiny": h rounds to 1.0 although the fitness is > 0) is outside the design
+\* assumption "h = 1.0 iff fitness = 0.0"; it is only used by behaviour generation, sparsely
+TinyOK(s) == \A g \in Goal : s.fit[g] = HOne =>
+               (s.size = 1 /\ s.res = "ok" /\ \A k \in Goal \ {g} : s.fit[k] = 1)
+\* MIOArchive.update asserts that an execution result exists
+PoolMio == {s \in PoolOf(FitsMio, ResKinds \ {"none"}) : TinyOK(s)}
 PoolPop == {s \in PoolOf(FitsPop, ResKinds) : \A g \in Goal : g > 1 => s.fit[g] = 1}
 SeqsUpTo(S, n) == UNION {[1..k -> S] : k \in 0..n}
 GoalSeqs == {q \in SeqsUpTo(Goal, NG) : \A i, j \in DOMAIN q : i # j => q[i] # q[j]}
@@ -42,7 +48,8 @@ GoalSeqs == {q \in SeqsUpTo(Goal, NG) : \A i, j \in DOMAIN q : i # j => q[i] # q
 EmptyPop(c) == [cap |-> c, counter |-> 0, covd |-> FALSE, sols |-> <<>>]
 View0(objs, c) == [objs |-> objs, unc |-> ToSet(objs), cov |-> [g \in Goal |-> NoSol],
                    pops |-> [g \in Goal |-> EmptyPop(c)]]
-NoAct == [op |-> "init", offered |-> <<>>]
+Act(op, offered, gs, n) == [op |-> op, offered |-> offered, gs |-> gs, n |-> n]
+NoAct == Act("init", <<>>, <<>>, 0)
 
 Init ==
   /\ mode \in Modes
@@ -52,47 +59,60 @@ Init ==
      THEN \E objs \in {<<>>, [g \in Goal |-> g]} : v = View0(objs, 0)   \* DynaMOSA | MOSA
      ELSE \E c \in 1..Cap0 : v = View0(<<>>, c)
 
-Tick == steps' = IF mode = "cov" THEN 0 ELSE steps + 1
+Tick == /\ steps' = (IF mode = "cov" THEN 0 ELSE steps + 1)
+        /\ UNCHANGED mode
 
 (* ---- CoverageArchive ---- *)
 CovUpdateA == /\ mode = "cov"
               /\ \E sols \in SeqsUpTo(PoolCov, MaxLenCov) :
                    /\ v' = CovUpdate(v, sols).st
-                   /\ last' = [op |-> "update", offered |-> sols]
+                   /\ last' = Act("update", sols, <<>>, 0)
+              /\ Tick
 AddGoalsA == /\ mode = "cov"
-             /\ \E gs \in GoalSeqs : v' = AddGoals(v, gs) /\ last' = [op |-> "add_goals", offered |-> <<>>]
+             /\ \E gs \in GoalSeqs : v' = AddGoals(v, gs) /\ last' = Act("add_goals", <<>>, gs, 0)
+             /\ Tick
 ResetA == /\ mode = "cov"
-          /\ v' = Reset(v) /\ last' = [op |-> "reset", offered |-> <<>>]
+          /\ v' = Reset(v) /\ last' = Act("reset", <<>>, <<>>, 0)
+          /\ Tick
 
 (* ---- MIOArchive ---- *)
 MioUpdateA == /\ mode = "mio"
               /\ \E sols \in SeqsUpTo(PoolMio, MaxLenMio) :
                    /\ v' = MioUpdate(v, sols).st
-                   /\ last' = [op |-> "mio_update", offered |-> sols]
+                   /\ last' = Act("mio_update", sols, <<>>, 0)
+              /\ Tick
 MioShrinkA == /\ mode = "mio"
-              /\ \E n \in 1..Cap0 : v' = MioShrink(v, n) /\ last' = [op |-> "shrink", offered |-> <<>>]
+              /\ \E n \in 1..Cap0 : v' = MioShrink(v, n) /\ last' = Act("shrink", <<>>, <<>>, n)
+              /\ Tick
 MioGetSolA == /\ mode = "mio"
-              /\ v' \in MioGetSolPosts(v) /\ last' = [op |-> "getsol", offered |-> <<>>]
+              /\ v' \in MioGetSolPosts(v) /\ last' = Act("getsol", <<>>, <<>>, 0)
+              /\ Tick
 
 (* ---- a single MIOPopulation (goal 1), called directly with h = h(fit[1]), 0.0 included ---- *)
 PopAddA == /\ mode = "pop"
            /\ \E s \in PoolPop :
                 /\ v' = [v EXCEPT !.pops[1] = PopAdd(@, HOf(s.fit[1]), AsCov(s)).pop]
-                /\ last' = [op |-> "pop_add", offered |-> <<s>>]
+                /\ last' = Act("pop_add", <<s>>, <<>>, 0)
+           /\ Tick
 PopShrinkA == /\ mode = "pop"
-              /\ \E n \in 1..Cap0 : v' = [v EXCEPT !.pops[1] = PopShrink(@, n)]
-              /\ last' = [op |-> "pop_shrink", offered |-> <<>>]
+              /\ \E n \in 1..Cap0 : /\ v' = [v EXCEPT !.pops[1] = PopShrink(@, n)]
+                                    /\ last' = Act("pop_shrink", <<>>, <<>>, n)
+              /\ Tick
 PopSampleA == /\ mode = "pop"
               /\ v' = [v EXCEPT !.pops[1] = PopSample(@)]
-              /\ last' = [op |-> "pop_sample", offered |-> <<>>]
+              /\ last' = Act("pop_sample", <<>>, <<>>, 0)
+              /\ Tick
 
-Next == /\ (CovUpdateA \/ AddGoalsA \/ ResetA \/ MioUpdateA \/ MioShrinkA \/ MioGetSolA
-            \/ PopAddA \/ PopShrinkA \/ PopSampleA)
-        /\ Tick
-        /\ UNCHANGED mode
+Next == \/ CovUpdateA \/ AddGoalsA \/ ResetA
+        \/ MioUpdateA \/ MioShrinkA \/ MioGetSolA
+        \/ PopAddA \/ PopShrinkA \/ PopSampleA
 
 Spec == Init /\ [][Next]_vars
 Bound == steps <= MaxSteps
+\* `last` only carries the arguments of the call into the action properties; two states that
+\* differ in `last` alone have the same future (TLC checks action properties on every
+\* generated transition, also those into states it has already seen)
+StateView == <<mode, v, steps>>
 
 (* ---- sanity of the model ---- *)
 ASolOK(s) == s = NoSol \/ (s.id > 0 /\ s.size >= 1 /\ s.covers \subseteq Goal)
